@@ -148,7 +148,7 @@ static void trkm_free(void *ctx, void *ptr)
 	if (!ptr) return;
 	for (i = trkm_n - 1; i >= 0; i--)
 		if (trkm_regs[i].live && trkm_regs[i].user == (unsigned char *)ptr) break;
-	if (i < 0) { fprintf(stderr, "trkm_free: region not live (double free or foreign pointer)\n"); abort(); }
+	if (i < 0) { fprintf(stderr, "trkm_free: region not live (double free or foreign pointer)\n"); fflush(stdout); abort(); }
 	trkm_regs[i].live = 0;
 	trkm_live--;
 	TRKM_UNPOISON(trkm_regs[i].raw, trkm_regs[i].rawlen);
